@@ -78,22 +78,26 @@ def decide_smt(prop, spec, tier):
     t0 = time.time()
     build_replay("dev")  # translation validation uses the native oracle
     try:
-        p = subprocess.run([sys.executable, os.path.join(VERIF, "smt", "mir2smt.py"), "--repo", REPO], stdout=subprocess.PIPE,
+        p = subprocess.run([sys.executable, os.path.join(VERIF, "smt", "mir2smt.py"), "--repo", REPO, "--group", spec.get("group", "can_change")], stdout=subprocess.PIPE,
                            stderr=subprocess.PIPE, text=True, timeout=spec.get("timeout_q", 900))
         d = json.loads(p.stdout.strip().splitlines()[-1])
         rc = p.returncode
     except (subprocess.TimeoutExpired, ValueError, IndexError) as e:
         d, rc = {"status": "inconclusive", "detail": str(e), "queries": []}, 2
-    checks = [{"name": "e4." + str(i), "status": "SUCCESS" if q.get("ok") else "FAILURE", "desc": "c01: " + q["name"], "loc": "", "func": None}
+    def pre(n):
+        if spec.get("group") == "gates":
+            return ("c16: " if n.startswith("allow_custom") else "c07+c15: ") + n
+        return "c01: " + n
+    checks = [{"name": "e4." + str(i), "status": "SUCCESS" if q.get("ok") else "FAILURE", "desc": pre(q["name"]), "loc": "", "func": None}
               for i, q in enumerate(d.get("queries", []))]
     status = {0: "PASS", 1: "FAIL"}.get(rc, "INCONCLUSIVE")
-    detail = "; ".join("c01: " + n for n in d.get("violated", [])) if rc == 1 else (d.get("detail", "") or "; ".join(d.get("inconclusive", [])))
+    detail = " ;; ".join(pre(n) for n in d.get("violated", [])) if rc == 1 else (d.get("detail", "") or "; ".join(d.get("inconclusive", [])))
     r = {"harness": spec["name"], "name": spec["name"], "engine": "smt", "status": status, "detail": detail, "wall_s": round(time.time() - t0, 2),
          "checks": checks, "stats": {"solver_s": round(sum(a["s"] for q in d.get("queries", []) for a in q["answers"].values()), 3),
                                      "solver_calls": 2 * len(d.get("queries", [])), "stubs": []},
          "log": "", "cmd": "python3 smt/mir2smt.py --repo " + REPO, "rc": rc, "spec": spec, "replays": [], "e4": d}
     if rc == 1:
-        r["replays"] = [{"class": "assertion", "desc": "c01: " + n, "tape": "", "native": []} for n in d.get("violated", [])]
+        r["replays"] = [{"class": "assertion", "desc": pre(n), "tape": "", "native": []} for n in d.get("violated", [])]
     return r
 
 
